@@ -97,7 +97,11 @@ Section Ops.
   (* l[i] = v *)
   Definition setitem (l : list A) (i : nat) (v : A) : M o (list A) :=
     if i <? length l then ret (set_nth l i v) else raise.
+  (* l[-j] = v for a literal j >= 1 *)
+  Definition setitem_last (l : list A) (j : nat) (v : A) : M o (list A) :=
+    if (1 <=? j) && (j <=? length l) then ret (set_nth l (length l - j) v) else raise.
 End Ops.
+Arguments setitem_last {o A} l j v.
 Arguments getitem {o A} l i.
 Arguments getitem_last {o A} l j.
 Arguments getitem_z {o A} l i.
